@@ -56,10 +56,42 @@ def py_eq(I, a, b):
             if len(a.items) != len(b.items):
                 return False
             return conj([py_eq(I, x, y) for x, y in zip(a.items, b.items)])
-        if set(map(keyid, a.d)) != set(map(keyid, b.d)):
-            return False
+        ak = {keyid(k): v for k, v in a.d.items()}
         bk = {keyid(k): v for k, v in b.d.items()}
-        return conj([py_eq(I, v, bk[keyid(k)]) for k, v in a.d.items()])
+        cs = []
+        for kk in list(ak) + [x for x in bk if x not in ak]:
+            va, vb = ak.get(kk, MISSING), bk.get(kk, MISSING)
+            pa = z3.BoolVal(False) if va is MISSING else (va.cond if isinstance(va, Maybe) else z3.BoolVal(True))
+            pb = z3.BoolVal(False) if vb is MISSING else (vb.cond if isinstance(vb, Maybe) else z3.BoolVal(True))
+            cs.append(S(pa == pb))
+            if va is MISSING or vb is MISSING:
+                continue
+            xa = va.value if isinstance(va, Maybe) else va
+            xb = vb.value if isinstance(vb, Maybe) else vb
+            e = py_eq(I, xa, xb)
+            if e is True:
+                continue
+            cs.append(S(z3.Implies(z3.And(pa, pb), e if not isinstance(e, bool) else z3.BoolVal(e))))
+        cs = [True if z3.is_true(c) else (False if z3.is_false(c) else c) for c in cs]
+        return conj(cs)
+    if isinstance(a, MapSeq) and isinstance(b, MapSeq):
+        # extensional list equality: same length and equal elements at every index
+        j = I.fresh("eqj", z3.IntSort())
+        va = subst_value(a.value, a.j, j)
+        vb = subst_value(b.value, b.j, j)
+        e = py_eq(I, va, vb)
+        e = z3.BoolVal(e) if isinstance(e, bool) else e
+        return S(z3.And(a.length == b.length, z3.ForAll([j], z3.Implies(z3.And(j >= 0, j < a.length), e))))
+    if isinstance(a, MapSeq) or isinstance(b, MapSeq):
+        o = b if isinstance(a, MapSeq) else a
+        m = a if isinstance(a, MapSeq) else b
+        if isinstance(o, (IList, tuple)):
+            items = o.items if isinstance(o, IList) else list(o)
+            cs = [S(m.length == len(items))]
+            for n_, x in enumerate(items):
+                cs.append(py_eq(I, subst_value(m.value, m.j, z3.IntVal(n_)), x))
+            return conj(cs)
+        return False
     if isinstance(a, (IList, IDict, ISet, SList, SDict, RSeq)) or isinstance(b, (IList, IDict, ISet, SList, SDict, RSeq)):
         return a is b if not (isinstance(a, Sym) or isinstance(b, Sym)) else False
     ta, tb = I.to_term(a), I.to_term(b)
@@ -69,6 +101,27 @@ def py_eq(I, a, b):
     if z3.is_false(r):
         return False
     return r
+
+
+def subst_value(v, old, new):
+    """Substitute the generic index `old` by `new` inside an interpreter value."""
+    if isinstance(v, Sym):
+        return Sym(z3.substitute(v.term, (old, new)), v.iface)
+    if isinstance(v, Maybe):
+        return Maybe(z3.substitute(v.cond, (old, new)), subst_value(v.value, old, new))
+    if isinstance(v, IDict):
+        return IDict({k: subst_value(x, old, new) for k, x in v.d.items()})
+    if isinstance(v, IList):
+        return IList([subst_value(x, old, new) for x in v.items])
+    if isinstance(v, tuple):
+        return tuple(subst_value(x, old, new) for x in v)
+    if isinstance(v, RObj):
+        return RObj(v.region, z3.substitute(v.idx, (old, new)))
+    if isinstance(v, MapSeq):
+        return MapSeq(v.seq, v.j, subst_value(v.value, old, new), v.kind)
+    if isinstance(v, z3.ExprRef):
+        return z3.substitute(v, (old, new))
+    return v
 
 
 def keyid(k):
@@ -438,7 +491,7 @@ def getattr_(I, obj, name, default=MISSING):
         if name == "__dict__":
             if isinstance(obj, IObject):
                 return IDict(obj.fields)
-            raise OutOfReach("__dict__ of region object")
+            return IDict({k: region_get(I, obj, k) for k in obj.region.fields})
         ca, owner = cls.lookup(name)
         if isinstance(ca, IProperty):
             if ca.fget is None:
